@@ -1577,7 +1577,7 @@ def check_write_edit_write(ctx, spec, first, edits):
     tmpw = Path(ctx.scratch) / f"c07-{os.getpid()}-w.mol2"
     case = {"layer": "WE", "spec": spec, "first": first, "edits": edits}
     kn = KINDNAME[spec["kind"]]
-    tag = "after[write+edit-in-place(" + "+".join(sorted({e["f"] for e in edits})) + ")]|"
+    tag = "after[write+edit-in-place]|"  # (the edited fields are in the case and in the message, not in the signature)
     ctx.count(evaluations=1, states=1, traces=1)
     ctx.nontrivial(("WE", digest(case)))
     try:
@@ -1616,16 +1616,16 @@ def check_write_edit_write(ctx, spec, first, edits):
             ca, cb = atom_type_column(text), bond_type_column(text)
             if ca != want_a * k:
                 bad = next(((x, y) for x, y in zip(ca, want_a * k) if x != y), (None, None))
-                s_ = f"atom-type-column-does-not-follow-the-current-state[{tokclass(bad[0] or '?')}-instead-of-{tokclass(bad[1] or '?')}]" if len(ca) == len(want_a) * k else "atom-type-column-has-another-length"
+                s_ = "atom-type-column-does-not-follow-the-current-state" if len(ca) == len(want_a) * k else "atom-type-column-has-another-length"
                 for w in ws:
                     cells.setdefault(s_, set()).add((w, "-"))
-                detail.setdefault(s_, f"type column {ca} written, the current state types as {want_a * k}")
+                detail.setdefault(s_, f"type column {ca} written ({bad[0]!r}), the current state types as {want_a * k} ({bad[1]!r})")
             if cb != want_b * k:
                 bad = next(((x, y) for x, y in zip(cb, want_b * k) if x != y), (None, None))
-                s_ = f"bond-type-column-does-not-follow-the-current-state[{bad[0]}-instead-of-{bad[1]}]" if len(cb) == len(want_b) * k else "bond-type-column-has-another-length"
+                s_ = "bond-type-column-does-not-follow-the-current-state" if len(cb) == len(want_b) * k else "bond-type-column-has-another-length"
                 for w in ws:
                     cells.setdefault(s_, set()).add((w, "-"))
-                detail.setdefault(s_, f"type column {cb} written, the current state types as {want_b * k}")
+                detail.setdefault(s_, f"type column {cb} written ({bad[0]!r}), the current state types as {want_b * k} ({bad[1]!r})")
     base_syms: set = set()
     if cells or wfail:
         try:
@@ -1635,6 +1635,13 @@ def check_write_edit_write(ctx, spec, first, edits):
         except UnderTestDeviation:
             pass
     ctx.outcome(("WE", digest(sorted(texts)), tuple(sorted(cells)), tuple(sorted(wfail))))
+    # one symptom for "the bond type read back is not the edited one" (the from->to pair is in the message)
+    for sym in [x for x in cells if x.startswith("bond-type-changed[") and x not in base_syms]:
+        merged = "bond-type-read-back-is-not-the-current-one"
+        cells.setdefault(merged, set()).update(cells.pop(sym))
+        detail.setdefault(merged, detail.get(sym))
+        for kk in [kk for kk in detail if isinstance(kk, tuple) and kk[0] == sym]:
+            detail.setdefault((merged,) + kk[1:], detail[kk])
     wok = sorted(w for ws in texts.values() for w in ws)
     for sym in sorted(wfail):
         ws = [w for w, _ in wfail[sym]]
